@@ -1769,7 +1769,13 @@ func SortServicesByCreationTime(services []*Service) []*Service {
 		if r := strings.Compare(i.Attributes.Name, j.Attributes.Name); r != 0 {
 			return r
 		}
-		return strings.Compare(i.Attributes.Namespace, j.Attributes.Namespace)
+		if r := strings.Compare(i.Attributes.Namespace, j.Attributes.Namespace); r != 0 {
+			return r
+		}
+		// Name and namespace are not unique: several ServiceEntries in one namespace may declare the same
+		// host. Fall back to the name of the underlying object so that the order never depends on the
+		// (random) order in which the registry listed the services.
+		return strings.Compare(i.Attributes.K8sAttributes.ObjectName, j.Attributes.K8sAttributes.ObjectName)
 	})
 	return services
 }
